@@ -620,10 +620,10 @@ func (d *detAnalyzer) singletonGuard(root *ast.BlockStmt, st *ast.RangeStmt) boo
 // commutative reducers: methods that fold a value into an accumulator by
 // min/max updates only.
 var reducers = map[string]bool{
-	"(*seehuhn.de/go/geom/rect.Rect).Extend":           true,
-	"(*seehuhn.de/go/postscript/funit.Rect16).Extend":  true,
-	"(*seehuhn.de/go/postscript/funit.Rect).Extend":    true,
-	"(*psa/control/ctl17.box).Extend":                   true,
+	"(*seehuhn.de/go/geom/rect.Rect).Extend":          true,
+	"(*seehuhn.de/go/postscript/funit.Rect16).Extend": true,
+	"(*seehuhn.de/go/postscript/funit.Rect).Extend":   true,
+	"(*psa/control/ctl17.box).Extend":                 true,
 }
 
 type bodyClass struct {
